@@ -40,6 +40,24 @@ Theorem C05_results_from_same_rows :
     all_lev (results_ok sample df notional) 0 (levels s).
 Proof. exact results_from_same_rows. Qed.
 
+(* sum_cost[l] is the sum over the passes of one_simulation_cost * dNl, N_l the sum of the dNl (ghost list lpasses),
+   and cl = sum_cost / N_l *)
+Theorem C05_cost_from_passes :
+  forall sample cost alloc conv garbage df notional level_max fuel L0 N0,
+    match price_run sample cost alloc conv garbage df notional level_max 0 fuel L0 N0 with
+    | Converged s | Fallthrough s =>
+        Forall (fun v => cost_ok v /\ ((0 < lN v)%nat -> res_cl v == pass_cost (lpasses v) / qnat (pass_count (lpasses v)))) (levels s)
+    | OutOfFuel => True
+    end.
+Proof. exact cost_from_passes. Qed.
+
+(* N pricings on ONE engine (repaired: the path-manager list restarts at every initialisation): whatever earlier
+   pricings left behind, pricing e holds on every level l exactly its own samples, seen through the deterministic path
+   of the manager (e, l) created for it *)
+Theorem C05_engine_reuse :
+  forall offs ps e prev, seq_own offs e ps (run_seq offs true e prev ps).
+Proof. exact engine_reuse. Qed.
+
 (* price_with_constant_mc_paths_and_level (initial_level <= maximum_level; otherwise the code raises) *)
 Theorem C05_fixed_level_variant :
   forall sample cost garbage df notional L0 Lmax N vs,
@@ -53,6 +71,10 @@ Example C05_nonvacuous_repaired :
   exists s v, w_run 0 = Converged s /\ nth_error (levels s) 3 = Some v /\
               lN v = 4%nat /\ lcnt v = 4%nat /\ map fst (lrows v) = [1; 2; 3; 4].
 Proof. exact no_phantom_after_repair. Qed.
+Example C05_stale_manager_before_repair :
+  exists o0 o1 s v, run_seq pm_offs false 0 [] [w_pricing; w_pricing] = [o0; o1] /\ o1 = Converged s /\
+    nth_error (levels s) 0 = Some v /\ map (fun r => Qred (fst r)) (lrows v) = [1; 2] /\ ~ own_rows pm_offs 1 w_pricing o1.
+Proof. exact stale_manager_before_repair. Qed.
 Example C05_phantom_sample_before_repair :
   exists s v, w_run 1 = Converged s /\ nth_error (levels s) 3 = Some v /\
               lN v = 4%nat /\ lcnt v = 3%nat /\ nth 0 (lrows v) (1, 1) = zero_row.
@@ -61,4 +83,6 @@ Proof. exact phantom_sample_before_repair. Qed.
 Print Assumptions C05_rows_are_samples.
 Print Assumptions C05_price_is_sum_of_means.
 Print Assumptions C05_results_from_same_rows.
+Print Assumptions C05_cost_from_passes.
+Print Assumptions C05_engine_reuse.
 Print Assumptions C05_fixed_level_variant.
